@@ -301,6 +301,65 @@ class Walker:
                     self.expr(c)
 
 
+def _rebind_counts(body):
+    """{attr: n} - the largest number of times one execution of the statement list `body` can rebind `self.<attr>`
+    (plain / annotated / augmented assignment whose target is the attribute itself; subscript stores and mutating
+    method calls change the object, they do not rebind).  Sequence = sum, `if`/`match`/handlers = maximum over the
+    alternatives, a site inside a loop counts twice ("more than once").  Nested defs/lambdas are not entered."""
+    def add(a, b):
+        out = dict(a)
+        for k, v in b.items():
+            out[k] = out.get(k, 0) + v
+        return out
+
+    def mx(ds):
+        out = {}
+        for d in ds:
+            for k, v in d.items():
+                out[k] = max(out.get(k, 0), v)
+        return out
+
+    def targets(t):
+        if isinstance(t, (ast.Tuple, ast.List)):
+            out = {}
+            for x in t.elts:
+                out = add(out, targets(x))
+            return out
+        if isinstance(t, ast.Starred):
+            return targets(t.value)
+        a = _self_attr(t)
+        return {a: 1} if a is not None else {}
+
+    def stmt(s):
+        if isinstance(s, ast.Assign):
+            out = {}
+            for t in s.targets:
+                out = add(out, targets(t))
+            return out
+        if isinstance(s, (ast.AnnAssign, ast.AugAssign)):
+            return targets(s.target) if getattr(s, "value", True) is not None else {}
+        if isinstance(s, ast.If):
+            return mx([seq(s.body), seq(s.orelse)])
+        if isinstance(s, (ast.For, ast.AsyncFor, ast.While)):
+            inner = seq(s.body)
+            return add({k: 2 * v for k, v in inner.items()}, seq(s.orelse))
+        if isinstance(s, (ast.With, ast.AsyncWith)):
+            return seq(s.body)
+        if isinstance(s, ast.Try) or s.__class__.__name__ == "TryStar":
+            return add(add(add(seq(s.body), mx([seq(h.body) for h in s.handlers])), seq(s.orelse)), seq(s.finalbody))
+        if isinstance(s, ast.Match):
+            return mx([seq(c.body) for c in s.cases])
+        return {}
+
+    def seq(body):
+        out = {}
+        for s in body:
+            out = add(out, stmt(s))
+        return out
+
+    return seq(body)
+
+
 def analyse():
     classes = parse_all()
     walkers = {}
@@ -454,8 +513,19 @@ def analyse():
         if lst:
             calls[f"{c}_{m}"] = lst
     locks = sorted(reentrant.items())
+    # rebinding sites of shared attributes per function (path maximum, see _rebind_counts)
+    rebinds = []
+    for (c, m), w in sorted(walkers.items()):
+        if m == "__init__":
+            continue
+        for a, n in sorted(_rebind_counts(classes[c].methods[m].body).items()):
+            if is_lock(c, a):
+                continue
+            o = owner_of(c, a)
+            if (o, a) in shared and n > 0:
+                rebinds.append((f"{c}_{m}", f"{o}_{a}", n))
     return {"calls": calls, "locks": locks, "records": records, "edges": sorted(edges), "reentrant_self": sorted(reentrant_self),
-            "blocks": blocks}
+            "blocks": blocks, "rebinds": rebinds}
 
 
 def _ident(s):
@@ -516,7 +586,16 @@ def render(info):
         cl = info["calls"].get(fn, [])
         body = ", ".join("(%s, .%s)" % (lks(l), _ident(c)) for l, c in cl)
         o.append(f"  | .{_ident(fn)} => [{body}]\n")
+    o.append("/-- rebinding sites: (function, shared attribute, the largest number of times ONE call of the function can "
+             "execute an assignment whose target is the attribute itself - `self.a = …`, `self.a += …`; a site inside a loop "
+             "counts 2).  An attribute that publishes an immutable object to readers that take no lock must be rebound "
+             "exactly once per update. -/\n")
+    o.append("def rebinds : List (Fn × At × Nat) := [" + ", ".join(
+        f"(.{_ident(fn)}, .{_ident(at)}, {n})" for (fn, at, n) in info.get("rebinds", [])) + "]\n")
     o.append("""
+/-- how often one call of `f` can rebind `a` (0 when `f` never assigns to the attribute itself) -/
+def rebindCount (f : Fn) (a : At) : Nat :=
+  ((rebinds.filter (fun r => r.1 == f && r.2.1 == a)).map (fun r => r.2.2)).foldl (· + ·) 0
 /-- every access (of the given kinds) to `a` happens while `l` is held -/
 def allUnder (a : At) (l : Lk) : Bool := accesses.all (fun x => x.attr != a || x.locks.contains l)
 def writesUnder (a : At) (l : Lk) : Bool :=
